@@ -369,6 +369,9 @@ func (db *DB) AcquireRemoteHaltLock(ctx context.Context, lockID int64) (_ *HaltL
 	}
 	defer func() {
 		if retErr != nil {
+			// The lock is given back: this node is not its holder.
+			db.remoteHaltLock.CompareAndSwap(haltLock, (*HaltLock)(nil))
+
 			if err := db.store.Client.ReleaseHaltLock(ctx, info.AdvertiseURL, db.store.ID(), db.name, haltLock.ID); err != nil {
 				log.Printf("cannot release remote halt lock after acquisition error: %s", err)
 			}
